@@ -29,42 +29,56 @@ def wrote(nid):
 
 
 def install(root, crash, sig_maps):
-    """sig_maps() -> (task signature -> id, node signature -> id), filled lazily from the session."""
-    STATE.update(n=0, k=None if not crash else crash.get("after"), root=str(root))
+    """sig_maps() -> (task signature -> id, node signature -> id), filled lazily from the session.
+
+    The two functions of database_utils that commit are wrapped (so that also a row whose hash did not change
+    counts as an effect); commits that happen outside them (the functions were renamed, inlined, or a new one
+    was added) are observed through SQLAlchemy events."""
+    STATE.update(n=0, k=None if not crash else crash.get("after"), root=str(root), inwrap=0)
     import _pytask.database_utils as DU
     orig = getattr(DU, "_create_or_update_state", None)
     if orig is not None:
         def wrapped(first_key, second_key, hash_):
             before_effect()
-            orig(first_key, second_key, hash_)
+            STATE["inwrap"] += 1
+            try:
+                orig(first_key, second_key, hash_)
+            finally:
+                STATE["inwrap"] -= 1
             _emit(f"C {first_key} {second_key}")
 
         DU._create_or_update_state = wrapped
-        purge = getattr(DU, "_delete_states_of_other_nodes", None)
-        if purge is not None:
-            # (F28, repaired) the rows of nodes that are no longer neighbours are deleted in one more commit
-            def wrapped_purge(first_key, second_keys):
-                before_effect()
+    purge = getattr(DU, "_delete_states_of_other_nodes", None)
+    if purge is not None:
+        # (F28, repaired) the rows of nodes that are no longer neighbours are deleted in one more commit
+        def wrapped_purge(first_key, second_keys):
+            before_effect()
+            STATE["inwrap"] += 1
+            try:
                 purge(first_key, second_keys)
-                _emit(f"P {first_key}")
+            finally:
+                STATE["inwrap"] -= 1
+            _emit(f"P {first_key}")
 
-            DU._delete_states_of_other_nodes = wrapped_purge
-        return
-    # the function was renamed or inlined: observe committed State rows through SQLAlchemy events
-    # (rows whose hash did not change are not seen this way; builds are still observed)
+        DU._delete_states_of_other_nodes = wrapped_purge
     try:
         from sqlalchemy import event
         pending = []
 
         def after_flush(session, ctx):
+            if STATE["inwrap"]:
+                return
             for obj in list(session.new) + list(session.dirty):
                 if hasattr(obj, "task") and hasattr(obj, "node"):
                     pending.append((obj.task, obj.node))
 
         def before_commit(session):
-            before_effect()
+            if not STATE["inwrap"] and (pending or session.new or session.dirty or session.deleted):
+                before_effect()
 
         def after_commit(session):
+            if STATE["inwrap"]:
+                return
             rows, pending[:] = list(pending), []
             for t, n in rows:
                 _emit(f"C {t} {n}")
